@@ -276,7 +276,34 @@ class Ctx:
         self.coq_log = (b["log"] or "") + "\n" + (rep["log"] or "")
         self.coq_ok = ok
         self.note("coq: %s (%d theorems in %s; overall build %s)" % ("ok" if ok else "BROKEN", n, rel, "ok" if b["ok"] else "has failures: %s" % b["failed"]))
+        if ok and self.tier == "thorough":
+            ok = self.coqchk_stage() and ok
         return ok
+
+    def coqchk_stage(self):
+        """Thorough tier: the independent checker coqchk re-checks the compiled property module and everything it depends on, and
+        prints the axioms the whole context relies on. Cached per content hash of the development (one run per tree)."""
+        h = hashlib.sha256()
+        for f in sorted(COQ.rglob("*.v")):
+            h.update(f.name.encode()); h.update(f.read_bytes())
+        cdir = VERIF / ".cache" / "coqchk"
+        cdir.mkdir(parents=True, exist_ok=True)
+        cf = cdir / ("%s-%s.txt" % (h.hexdigest()[:16], self.prop))
+        if cf.exists():
+            out, rc = cf.read_text(), 0
+        else:
+            with Lock("coq"):
+                rc, out = sh(["coqchk", "-silent", "-o", "-Q", ".", "Ldlm", "Ldlm.Properties.%s" % self.prop], cwd=COQ, timeout=3000)
+            if rc == 0:
+                cf.write_text(out)
+        m = re.search(r"\* Axioms:(.*?)\n\s*\n\* Constants", out, re.S)
+        axioms = (m.group(1).strip() if m else "?")
+        clean = rc == 0 and "<none>" in axioms and "type-in-type: <none>" in out and "unsafe (co)fixpoints: <none>" in out and "positivity is assumed: <none>" in out
+        self.coverage["coqchk"] = {"cmd": "coqchk -silent -o -Q . Ldlm Ldlm.Properties.%s" % self.prop, "rc": rc, "axioms": axioms[:500], "clean": clean}
+        self.note("coqchk: %s (axioms: %s)" % ("ok" if clean else "NOT CLEAN", axioms[:80]))
+        if not clean:
+            self.coq_log = getattr(self, "coq_log", "") + "\ncoqchk:\n" + out[-2000:]
+        return clean
 
     def coq_broken_violation(self):
         """Called by a check when the theorem stage is broken and no failing input was found."""
